@@ -376,8 +376,8 @@ theorem addAllH_upd {c : Addr} : ∀ (kvs : List (String × Addr)) (h h' : Heap)
 theorem addH_upd {h h' : Heap} {s s' : HOverlay} {l : String} {c : Addr}
     (hc : ClosedIn R h) (hf : FreshIn R h) (hs : ∀ a, s.find l = some a → R a)
     (hv : ∀ cell, h.get? c = some cell → ∀ k ∈ cell.kids, R k) (hlt : c < h.size)
-    (he : addH h s l c = some (h', s')) : Upd R h h' ∧ SNew h s s' := by
-  unfold addH at he
+    (he : ovAddH h s l c = some (h', s')) : Upd R h h' ∧ SNew h s s' := by
+  unfold ovAddH at he
   obtain ⟨u0, hcur, hs1, _⟩ := ensureOverlay_upd (l := l) hc hf hs
   have hprefix : (ensureOverlay h s l).1.get? c = h.get? c := by
     unfold ensureOverlay
@@ -559,7 +559,7 @@ end ops
 /-! ## 2. Frame -/
 
 /-- in an extension of the heap a root with a defined abstraction reaches what it reached -/
-theorem reach_of_le {h h' : Heap} (hl : h ≤ h') {f : Nat} {r : Addr} {n : Node}
+theorem reach_of_le' {h h' : Heap} (hl : h ≤ h') {f : Nat} {r : Addr} {n : Node}
     (hn : absH f h r = some n) {b : Addr} (hr : Reach h' r b) : Reach h r b := by
   have hlt := reach_lt_of_absH f r n hn
   refine Reach.closed_set (fun x => Reach h r x) ?_ hr (.refl _)
@@ -592,7 +592,7 @@ theorem Writes.absH_frame_wc {R : Addr → Prop} {r : Addr} {h h' : Heap} (hw : 
     have hl := le_alloc g c
     refine ih ?_ (absH_mono hl f r n hn)
     intro b hb
-    have hb' : Reach g r b := reach_of_le hl hn hb
+    have hb' : Reach g r b := reach_of_le' hl hn hb
     have hlt := reach_lt_of_absH f r n hn b hb'
     rw [get?_eq_of_le hl hlt]
     exact hsep b hb'
